@@ -6,5 +6,5 @@ CONSTANTS
   Slides = {1,2,3}
   NeModes = {TRUE, FALSE}
   FixEvict = TRUE
-INVARIANTS ContentExact Monotone ExactlyOnce UniqueKeys
+INVARIANTS ContentExact Monotone ExactlyOnce UniqueKeys FlushExact
 CHECK_DEADLOCK FALSE
